@@ -152,15 +152,21 @@ def random_history(rng, cfg, n_ops, wide, aliases=True):
         if shared:
             yield ('FREEZE', (True,), {})
             batch_ttl = gen.pick(rng, [gen.ttl_exact(0.5), gen.ttl_exact(5.5)])
+        # most items of the batch carry one tag, so that evict(tag) has more than one 100-row page to remove
+        batch_tag = gen.pick(rng, ['t', 7, 2.5, b't'])
         for k in keys:
             if rng.random() < 0.9:
-                yield ('set', (k, gen.pick(rng, vals)), {'expire': batch_ttl if shared else ttl(), 'tag': tag()})
+                yield ('set', (k, gen.pick(rng, vals)), {'expire': batch_ttl if shared else ttl(),
+                                                         'tag': batch_tag if rng.random() < 0.7 else tag()})
+        if not shared and rng.random() < 0.6:
+            yield ('evict', (batch_tag,), {})
+            yield ('len', (), {})
         if shared:
             yield ('FREEZE', (False,), {})
             yield ('ADV', (gen.pick(rng, [0.1, 1.0, 7.0]),), {})
             if rng.random() < 0.6:
                 yield ('ADV', (7.0,), {})
-                yield (gen.pick(rng, ['expire', 'cull']), (), {})
+                yield (gen.pick(rng, ['expire', 'cull']), (), {}) if rng.random() < 0.7 else ('evict', (batch_tag,), {})
                 yield ('len', (), {})
     for _ in range(n_ops):
         op = rng.choices(names, ws)[0]
